@@ -65,6 +65,7 @@ type c13Explorer struct {
 	base      string
 	lastDiff  string
 	lastChanged map[string]bool // tasks whose dump line differs in the last rollback mismatch
+	pairChecks int // sequences ending with [evict(t); unevict(t)] whose view was compared with the view before the pair
 	claimSeqs int // sequences after which (before the discard) the claim view differs from the pristine one
 }
 
@@ -455,7 +456,16 @@ func (e *c13Explorer) explore() {
 			fmt.Fprintf(os.Stderr, "SEQ %s\n", key)
 		}
 		r := &c13Run{stmt: e.ssn.Statement()}
-		for _, op := range prefix {
+		// un-evict is the inverse of evict: when the sequence ends with [evict(t); unevict(t)] the view after
+		// the pair must equal the view before it (whatever the statement did earlier, earlier evictions of
+		// the same pod included)
+		n := len(prefix)
+		pairUndo := n >= 2 && prefix[n-2].Kind == "evict" && prefix[n-1].Kind == "unevict" && prefix[n-2].Arg == prefix[n-1].Arg && !e.verified[key]
+		dPair := ""
+		for i, op := range prefix {
+			if pairUndo && i == n-2 {
+				dPair = sessioncheck.Dump(e.ssn)
+			}
 			if msg := e.apply(r, op); msg != "" {
 				e.bad[key], e.corrupted = true, true
 				e.viol = append(e.viol, engine.Violation{Property: "C13", Key: "C13/rollback-does-not-restore " + e.lastDiff + " base=" + e.base + claimUndoClass(e.lastDiff, e.lastChanged, prefix[:len(prefix)-1]),
@@ -495,6 +505,15 @@ func (e *c13Explorer) explore() {
 		}
 		dBefore := sessioncheck.Dump(e.ssn)
 		e.distinct[engine.HashKey(dBefore)] = true
+		if pairUndo {
+			e.pairChecks++
+			if dBefore != dPair {
+				e.bad[key] = true
+				e.viol = append(e.viol, engine.Violation{Property: "C13", Key: "C13/unevict-does-not-undo-evict diff=" + diffClass(dPair, dBefore) + " base=" + e.base,
+					Message: fmt.Sprintf("base %s, sequence [%s]: the view after the final evict/un-evict pair differs from the view before the pair:\n%s", e.base, seqString(prefix), firstDiff(dPair, dBefore)),
+					Replay:  map[string]any{"base": e.base, "sequence": seqString(prefix)}})
+			}
+		}
 		if !e.verified[key] && claimPart(dBefore) != claimPart(d0) {
 			e.claimSeqs++
 		}
@@ -637,6 +656,7 @@ type c13Result struct {
 	Ops        int                `json:"ops"`
 	Rollbacks  int                `json:"rollbacks"`
 	ClaimSeqs  int                `json:"claim_seqs"`
+	PairChecks int                `json:"pair_checks"`
 	Distinct   []string           `json:"distinct"`
 	Samples    []string           `json:"samples"`
 	CapHit     bool               `json:"cap_hit"`
@@ -677,7 +697,7 @@ func runC13(tier string) int {
 					break
 				}
 			}
-			out := c13Result{Base: name, Sequences: ex.sequences, Ops: ex.ops, Rollbacks: ex.rollbacks, ClaimSeqs: ex.claimSeqs, Distinct: maps.Keys(ex.distinct), Samples: ex.samples, CapHit: ex.capHit, Violations: ex.viol}
+			out := c13Result{Base: name, Sequences: ex.sequences, Ops: ex.ops, Rollbacks: ex.rollbacks, ClaimSeqs: ex.claimSeqs, PairChecks: ex.pairChecks, Distinct: maps.Keys(ex.distinct), Samples: ex.samples, CapHit: ex.capHit, Violations: ex.viol}
 			if err != nil {
 				out.Err = err.Error()
 			} else if res.Panic != "" {
@@ -712,6 +732,7 @@ func runC13(tier string) int {
 		total.Ops += r.Ops
 		total.Rollbacks += r.Rollbacks
 		total.ClaimSeqs += r.ClaimSeqs
+		total.PairChecks += r.PairChecks
 		if bases[r.Base] != nil && bases[r.Base].HasDRA() && r.ClaimSeqs == 0 && len(r.Violations) == 0 && r.Err == "" {
 			herr = "vacuous: base " + r.Base + " has DRA objects but no explored sequence changed the scheduler's claim view (is Dynamic Resource Allocation on?)"
 		}
@@ -734,7 +755,7 @@ func runC13(tier string) int {
 	code := rep.Finish()
 	cov := map[string]any{
 		"states": len(distinct), "transitions": total.Ops, "traces_validated_against_impl": total.Sequences,
-		"samples": samples, "sequences": total.Sequences, "operations_executed": total.Ops, "rollbacks_checked": total.Rollbacks, "sequences_changing_claim_view": total.ClaimSeqs,
+		"samples": samples, "sequences": total.Sequences, "operations_executed": total.Ops, "rollbacks_checked": total.Rollbacks, "sequences_changing_claim_view": total.ClaimSeqs, "evict_unevict_pairs_checked_as_inverse": total.PairChecks,
 		"depth": depth, "bases": names, "commit_cycles_checked": commitCycles, "commit_decisions_checked": commitDecisions, "exhaustive": !total.CapHit, "cap_hit": total.CapHit,
 		"evaluations": total.Sequences, "distinct_nontrivial": len(distinct),
 		"rule": "all well-formed sequences (length <= depth) of {AllocateJob real, AllocateJob pipeline-only, Evict, Unevict, Checkpoint, Rollback(cp_i), ConvertAllAllocatedToPipelined} enabled in the live session state, from the base sessions (see bases) opened through the real snapshot path; each sequence ends with Discard; distinct = distinct scheduler views reached before the discard",
